@@ -207,7 +207,7 @@ func c23(c *vc.Ctx) {
 			f := &vc.Fail{
 				Key:   fmt.Sprintf("IFS=%s line=%q %s: %s=%q bash=%q", t.ifsString(), t.Line, t.readCmd(), s.what, sh, d.Got),
 				Msg:   fmt.Sprintf("IFS=%s; %s <<< %q: %s gives status|values %q, bash %q", t.ifsString(), t.readCmd(), t.Line, s.what, sh, d.Got),
-				Class: c23Class(t, s.what, sh, d.Got),
+				Class: c23Class(t, sh),
 			}
 			switch {
 			case fails[s.i] == nil:
